@@ -11,7 +11,7 @@ import gen_submit
 
 FLOCALS = {"total_len": 0, "partial_block_len": 1}
 IGNORED = ("aligned_frame_buffer", "mh_sha1_segs_digests", "mh_sha256_segs_digests")
-ALLOWED = {"total", "loc", "lit", "add", "sub", "and", "shr", "trunc"}
+ALLOWED = {"total", "loc", "lit", "add", "sub", "and", "shl", "shr", "trunc"}
 ALGS = [("mh_sha1", "mh_sha1", "mh_sha1_digest"), ("mh_sha256", "mh_sha256", "mh_sha256_digest"),
         ("mh_sha1_murmur3_x64_128", "mh_sha1", "mh_sha1_digest")]
 
@@ -63,6 +63,8 @@ class TrFin(Tr):
             nm = n["referencedDecl"]["name"]
             if nm in FLOCALS and width(n) == (64, False):
                 return "(.loc %d)" % FLOCALS[nm]
+            if nm == "num_blocks" and width(n) == (32, False) and getattr(self, "blockbase", False):
+                return "(.loc 3)"
             raise NoFit("variable " + nm)
         return super().expr(n)
 
@@ -160,6 +162,11 @@ class TrFin(Tr):
                         continue
                     raise NoFit("if")
                 if k == "ReturnStmt":
+                    if not kids(s):
+                        if getattr(self, "blockbase", False):
+                            out.append(".ret (0)")
+                            continue
+                        raise NoFit("return without a value")
                     v = self.const(kids(s)[0])
                     if v is None:
                         raise NoFit("return of a non-constant")
@@ -183,6 +190,20 @@ class TrFin(Tr):
                     if nm in IGNORED:
                         continue      # scratch frame / interim digest pointers: passed through to the tail function
                     raise NoFit("assignment")
+                if k == "ReturnStmt" and not kids(s) and getattr(self, "blockbase", False):
+                    out.append(".ret (0)")
+                    continue
+                if k == "CallExpr" and getattr(self, "blockbase", False):
+                    cal = callee(s) or ""
+                    a = kids(s)[1:]
+                    ref = lambda x: strip(x).get("referencedDecl", {}).get("name")
+                    if cal == "_mh_sha1_block_base" and len(a) == 4 and [ref(x) for x in a[:3]] == ["input_data", "mh_sha1_digests", "frame_buffer"]:
+                        out.append(".shaBlockIn (%s)" % self.zexpr(a[3]))
+                        continue
+                    if cal == "_murmur3_x64_128_block" and len(a) == 3 and ref(a[0]) == "input_data" and ref(a[2]) == "murmur3_x64_128_digests":
+                        out.append(".murBlockIn (%s)" % self.zexpr(a[1]))
+                        continue
+                    raise NoFit("call " + cal)
                 if k == "CallExpr":
                     cal = callee(s) or ""
                     a = kids(s)[1:]
@@ -254,6 +275,19 @@ def main(argv=None):
             if tr.tails != {want}:
                 out.append('.unsupported "tail function %s, expected %s"' % (sorted(tr.tails), want))
             rows.append((rel, d["name"], alg, out))
+    # the stitched C block function (base family): two calls over the same input
+    tr.blockbase = True
+    for d in clang_json(repo, "mh_sha1_murmur3_x64_128/mh_sha1_murmur3_x64_128.c", "_mh_sha1_murmur3_x64_128_block_base"):
+        if d.get("kind") != "FunctionDecl" or d.get("name") != "_mh_sha1_murmur3_x64_128_block_base":
+            continue
+        cs = [c for c in kids(d) if c.get("kind") == "CompoundStmt"]
+        if not cs:
+            continue
+        tr.tails, tr.consts, tr.frozen = set(), {}, set()
+        out = []
+        tr.walk_fin(kids(cs[0]), out, "block_base", "-")
+        rows.append(("mh_sha1_murmur3_x64_128/mh_sha1_murmur3_x64_128.c", d["name"], "block_base", out))
+    tr.blockbase = False
     out = ["import IsalVerif.Impl.MhFinC",
            "/-! GENERATED by tools/gen_mhfin.py from the current tree: every instance of the multi-hash finalize functions. Do not edit. -/",
            "namespace IsalVerif.Gen.MhFin", "open IsalVerif.MhFinC", ""]
